@@ -222,3 +222,136 @@ Theorem C12_receiver_entries_leave : forall m s o, reach m s ->
   (exists h, o = Close h /\ receivers s' = [] /\ open_send s' = 0).
 Proof. exact ms_receiver_entries_leave. Qed.
 Print Assumptions C12_receiver_entries_leave.
+
+(* ---- tie T: the methods of MemoryObjectSendStream / MemoryObjectReceiveStream regenerated from /repo's source by
+   tools/translate_mem.py (MemGen.v) and interpreted by MemImp.exec ARE what the model does.  `runs s0 s' r h t kd p l0`
+   (written out by C12_tie_runs_spec) = interpreting segment p for task t on stream object h from what s0 shows (buffer,
+   open-channel counters, the two wait queues, receiver item slots, the waiter futures of the events, this object's
+   _closed flag, has_pending_cancellation() as an oracle) yields exactly what s' shows, result r and t's phase; no other
+   stream object and no other task's phase is touched.  Function-valued fields are compared pointwise.  send() and
+   receive() are cut at `await checkpoint()` (entry) and at `await <event>.wait()`; `finish` is the kernel's side of a
+   wake-up.  All other fields of st (nitem, entered, handed, returned, inflight, withdrawn, lost, acked, senq, renq) are
+   history variables of the observer and are never read by the interpretation.  The clone/close/Broken/EndOfStream
+   segments are exported in props/C13.v. ---- *)
+From AV Require Import MemImp MemGen MemGenEq.
+
+Theorem C12_tie_send_nowait : forall s t h x,
+  phase_of s t = Idle -> valid_h s h SSend = true -> Nat.ltb x (nitem s) = false ->
+  runs s (fst (step s (SendNowait t h x))) (snd (step s (SendNowait t h x))) h t KPlain
+       snd_send_nowait_entry (loc0 (Some x)).
+Proof. exact tie_send_nowait. Qed.
+Print Assumptions C12_tie_send_nowait.
+
+Theorem C12_tie_recv_nowait : forall s t h,
+  phase_of s t = Idle -> valid_h s h SRecv = true ->
+  runs s (fst (step s (RecvNowait t h))) (snd (step s (RecvNowait t h))) h t KPlain
+       rcv_receive_nowait_entry (loc0 None).
+Proof. exact tie_recv_nowait. Qed.
+Print Assumptions C12_tie_recv_nowait.
+
+Theorem C12_tie_send_entry : forall s t h x,
+  phase_of s t = Idle -> valid_h s h SSend = true -> Nat.ltb x (nitem s) = false ->
+  runs s (fst (step s (Send t h x))) (snd (step s (Send t h x))) h t (KSend h x) snd_send_entry (loc0 (Some x)).
+Proof. exact tie_send_entry. Qed.
+Print Assumptions C12_tie_send_entry.
+
+Theorem C12_tie_send_ck_cancelled : forall s t h x,
+  phase_of s t = SendCk h x -> mustc s t = true ->
+  runs (finish s t) (fst (step s (Resume t))) (snd (step s (Resume t))) h t (KSend h x)
+       snd_send_ck_cancelled (loc_resume (Some x) None false (Some ECancelled)).
+Proof. exact tie_send_ck_cancelled. Qed.
+Print Assumptions C12_tie_send_ck_cancelled.
+
+Theorem C12_tie_send_ck_resumed : forall s t h x,
+  phase_of s t = SendCk h x -> mustc s t = false ->
+  runs (finish s t) (fst (step s (Resume t))) (snd (step s (Resume t))) h t (KSend h x)
+       snd_send_ck_resumed (loc_resume (Some x) None false None).
+Proof. exact tie_send_ck_resumed. Qed.
+Print Assumptions C12_tie_send_ck_resumed.
+
+Theorem C12_tie_send_event_cancelled : forall s t e x,
+  phase_of s t = SendWait e x ->
+  fut s e = FCancelled \/ (fut s e = FSet /\ mustc s t = true) ->
+  forall h, runs (finish s t) (fst (step s (Resume t))) (snd (step s (Resume t))) h t (KSend h x)
+       snd_send_event_cancelled (loc_resume (Some x) (Some e) false (Some ECancelled)).
+Proof. exact tie_send_event_cancelled. Qed.
+Print Assumptions C12_tie_send_event_cancelled.
+
+Theorem C12_tie_recv_entry : forall s t h,
+  phase_of s t = Idle -> valid_h s h SRecv = true ->
+  runs s (fst (step s (Recv t h))) (snd (step s (Recv t h))) h t (KRecv h) rcv_receive_entry (loc0 None).
+Proof. exact tie_recv_entry. Qed.
+Print Assumptions C12_tie_recv_entry.
+
+Theorem C12_tie_recv_ck_cancelled : forall s t h,
+  phase_of s t = RecvCk h -> mustc s t = true ->
+  runs (finish s t) (fst (step s (Resume t))) (snd (step s (Resume t))) h t (KRecv h)
+       rcv_receive_ck_cancelled (loc_resume None None false (Some ECancelled)).
+Proof. exact tie_recv_ck_cancelled. Qed.
+Print Assumptions C12_tie_recv_ck_cancelled.
+
+Theorem C12_tie_recv_ck_resumed : forall s t h,
+  phase_of s t = RecvCk h -> mustc s t = false ->
+  runs (finish s t) (fst (step s (Resume t))) (snd (step s (Resume t))) h t (KRecv h)
+       rcv_receive_ck_resumed (loc_resume None None false None).
+Proof. exact tie_recv_ck_resumed. Qed.
+Print Assumptions C12_tie_recv_ck_resumed.
+
+Theorem C12_tie_recv_event_cancelled : forall s t e,
+  phase_of s t = RecvWait e ->
+  fut s e = FCancelled \/ (fut s e = FSet /\ mustc s t = true) ->
+  forall h, runs (finish s t) (fst (step s (Resume t))) (snd (step s (Resume t))) h t (KRecv h)
+       rcv_receive_event_cancelled (loc_resume None (Some e) true (Some ECancelled)).
+Proof. exact tie_recv_event_cancelled. Qed.
+Print Assumptions C12_tie_recv_event_cancelled.
+
+Theorem C12_tie_recv_event_resumed : forall s t e,
+  phase_of s t = RecvWait e -> fut s e = FSet -> mustc s t = false ->
+  forall h, runs (finish s t) (fst (step s (Resume t))) (snd (step s (Resume t))) h t (KRecv h)
+       rcv_receive_event_resumed (loc_resume None (Some e) true None).
+Proof. exact tie_recv_event_resumed. Qed.
+Print Assumptions C12_tie_recv_event_resumed.
+
+Theorem C12_tie_runs_spec : forall s0 s' r h t kd p l0,
+  runs s0 s' r h t kd p l0 <->
+  (let '(l, k, o) := exec p t l0 (vis s0 h) in
+   (maxb s' = m_maxb k /\ buffer s' = m_buffer k /\ open_send s' = m_osend k /\ open_recv s' = m_orecv k /\
+    receivers s' = m_recvs k /\ senders s' = m_sends k /\ (forall e, slot s' e = m_slot k e) /\
+    (forall e, fut s' e = m_fut k e) /\ nev s' = m_nev k /\ hclosed s' h = m_closed k /\
+    (forall h', h' <> h -> h' <> nh s0 -> hclosed s' h' = hclosed s0 h') /\
+    (forall h', h' <> nh s0 -> hside s' h' = hside s0 h')) /\
+   res_of s0 o = Some r /\ phase_after kd l o = Some (phase_of s' t) /\
+   (forall t', t' <> t -> phase_of s' t' = phase_of s0 t')).
+Proof. exact runs_spec. Qed.
+Print Assumptions C12_tie_runs_spec.
+
+Theorem C12_tie_step_runs_generated : forall s o s0 h ot kd p l0,
+  dispatch mem_prog s o = Some (s0, h, ot, kd, p, l0) ->
+  runs_opt s0 (fst (step s o)) (snd (step s o)) h ot kd p l0.
+Proof. exact step_runs_generated. Qed.
+Print Assumptions C12_tie_step_runs_generated.
+
+Theorem C12_tie_grun_iff_reach : forall m s,
+  grun mem_prog m s <-> reach m s.
+Proof. exact grun_iff_reach. Qed.
+Print Assumptions C12_tie_grun_iff_reach.
+
+Theorem C12_tie_gen_conservation : forall m s,
+  grun mem_prog m s ->
+  Permutation (entered s)
+    (returned s ++ map snd (inflight s) ++ lost s ++ buffer s ++ map snd (senders s) ++ withdrawn s) /\
+  NoDup (entered s) /\ NoDup (returned s) /\ (forall x, In x (returned s) -> In x (entered s)).
+Proof. exact gen_conservation. Qed.
+Print Assumptions C12_tie_gen_conservation.
+
+Theorem C12_tie_gen_fifo : forall m s,
+  grun mem_prog m s ->
+  subseq (handed s ++ buffer s ++ map snd (senders s)) (entered s) /\ xle (length (buffer s)) m.
+Proof. exact gen_fifo. Qed.
+Print Assumptions C12_tie_gen_fifo.
+
+Theorem C12_tie_gen_invariant : forall m s,
+  grun mem_prog m s -> Inv s.
+Proof. exact gen_invariant. Qed.
+Print Assumptions C12_tie_gen_invariant.
+
